@@ -7,7 +7,7 @@ from .. import core, fe, world
 from .. import prop as P
 from ..prop import V, hx, unhx
 
-OPS = ["create", "create_bad", "create_again", "gen_key", "encrypt", "upload_config", "upload_index", "search"]
+OPS = ["create", "create_bad", "create_again", "create_stored", "gen_key", "encrypt", "upload_config", "upload_index", "search"]
 LEGAL = ["create", "gen_key", "encrypt", "upload_config", "upload_index", "search", "search"]
 BAD_CFG = ["unknown_scheme", "missing_param", "aes_key_20", "no_scheme"]
 
@@ -33,7 +33,7 @@ class C11(P.Property):
     real_stub = dict(deployment="real client Service + real server + websockets on the simulated loop/TCP; disk seam observing; no kills (C13)")
     assumptions = ["one service per run; operations before any create use an unknown sid"]
     probe_names = ["key_regen_refused", "encrypt_again_refused", "upload_before_create_refused", "search_before_upload_refused",
-                   "invalid_config_refused", "create_again_refused", "reached_uploaded", "scheme_refused_input", "op_on_unknown_sid"]
+                   "invalid_config_refused", "create_again_refused", "create_from_stored_config_refused", "reached_uploaded", "scheme_refused_input", "op_on_unknown_sid"]
 
     def setup(self):
         world.setup_frontend()
@@ -147,6 +147,17 @@ class C11(P.Property):
             elif op == "create_again":
                 r = await host.create_on(cur, copy.deepcopy(cfg0))
                 exp = sid is None  # on an unknown sid this simply creates a new service
+            elif op == "create_stored":
+                # create-service fed with the configuration file the client stored for this service (it carries the salt,
+                # hence yields the same sid): redoing a completed step
+                if sid is None:
+                    continue
+                stored = self._disk_config(run, sid)
+                import hashlib
+                if hashlib.sha256(pickle.dumps(stored)).hexdigest() != sid:
+                    continue  # (pickle memoisation of repeated strings) this would be a different, new service: not a redo
+                r = await host.create(stored)
+                exp = False
             elif op == "gen_key":
                 r = await host.gen_key(cur)
                 exp = F["cc"] and not F["kc"]
@@ -229,7 +240,7 @@ class C11(P.Property):
                 name = {"gen_key": "key_regen_refused" if F["kc"] else None, "encrypt": "encrypt_again_refused" if F["de"] else None,
                         "upload_config": "upload_before_create_refused" if not F["cc"] else None,
                         "search": "search_before_upload_refused", "create_bad": "invalid_config_refused",
-                        "create_again": "create_again_refused"}.get(op)
+                        "create_again": "create_again_refused", "create_stored": "create_from_stored_config_refused"}.get(op)
                 if name:
                     probes[name] = 1
                 if after != before:
